@@ -121,6 +121,9 @@ impl Formatter {
                 .to_width_heuristics(self.config.whitespace.max_width),
         );
 
+        // Spans removed while formatting a previous module must not leak into this one.
+        self.removed_spans.clear();
+
         // Get the original trimmed source code.
         let module_kind_span = annotated_module.value.kind.span();
         let src = module_kind_span.src().text.trim();
